@@ -60,7 +60,7 @@ func (calc *convexHullCalculator) getConvexHull() geom.T {
 
 	// use heuristic to reduce points, if large
 	if len(calc.inputPts)/calc.stride > 50 {
-		reducedPts = calc.reduce(calc.inputPts)
+		reducedPts = calc.reduce(reducedPts)
 	}
 	// sort points for Graham scan.
 	calc.preSort(reducedPts)
